@@ -272,7 +272,7 @@ impl Prop for C15 {
     fn meta() -> Meta {
         Meta {
             level: "exploration",
-            rule: "Well-formed source files (every line numbered, non-empty, tokenizable; shuffled; with or without a final newline; one file in four with blanks/tabs in front of the line numbers and behind the text) from the C03/C08 grammar (RND excluded for the binary runs: the CLI seeds from a clock). (a) in-process, every run: SourceFileAnalyzer::analyze(text).into_interpreter() vs. a fresh interpreter fed the same lines through start_evaluating: LIST equal, and RUN under the same flags, seed and reply script gives equal records, request positions, outcome and final probe snapshot. (b) 1 run in 12: the real abasic binary in a scratch HOME/cwd, `abasic OPTS p.bas < replies` vs. `abasic OPTS < lines+RUN+replies` for a PRNG-chosen combination of --warnings / --tracing / --skip-check (skip-check forced when the in-process analyzer reports an error, since file mode refuses such programs), with the reply stream cut at a PRNG-chosen point (EOF at an input request): stdout without the banner, stderr without the file-mode analyzer report, and the exit status must be identical. distinct_nontrivial = distinct (file text, options) hashes among runs whose in-process RUN took >= 5 boundaries.",
+            rule: "Well-formed source files (every line numbered, non-empty, tokenizable; shuffled; with or without a final newline; one file in four with blanks/tabs in front of the line numbers and behind the text; one program in eight numbered from 63990 / 64000 / 2^32-6 / 10^15 / 2^64-2001 upwards) from the C03/C08 grammar (RND excluded for the binary runs: the CLI seeds from a clock). (a) in-process, every run: SourceFileAnalyzer::analyze(text).into_interpreter() vs. a fresh interpreter fed the same lines through start_evaluating: LIST equal, and RUN under the same flags, seed and reply script gives equal records, request positions, outcome and final probe snapshot. (b) 1 run in 12: the real abasic binary in a scratch HOME/cwd, `abasic OPTS p.bas < replies` vs. `abasic OPTS < lines+RUN+replies` for a PRNG-chosen combination of --warnings / --tracing / --skip-check (skip-check forced when the in-process analyzer reports an error, since file mode refuses such programs), with the reply stream cut at a PRNG-chosen point (EOF at an input request): stdout without the banner, stderr without the file-mode analyzer report, and the exit status must be identical. distinct_nontrivial = distinct (file text, options) hashes among runs whose in-process RUN took >= 5 boundaries.",
             real: &["abasic-core analyzer loader and Interpreter (in-process)", "abasic binary (abasic-cli, rustyline non-tty path, stdio printer) built from /repo, release profile"],
             stub: &["the terminal: scripted stdin with an EOF point", "file system content: one program file and HOME in a per-run scratch directory"],
             assumptions: &[
